@@ -29,21 +29,36 @@ Proof.
   right; right; right; right; right; right; right. destruct n; reflexivity.
 Qed.
 
-(* whenever the output file is removed (step 11), the command had accepted the output location: -o was absent, or named
-   a directory (a generated name below it is used), or named a path that DID NOT EXIST when the command started and
-   whose parent is a directory *)
-Lemma unlink_only_what_was_absent : forall p f,
-  existsb removes_output (archive_main p f) = true ->
-  o_given p = false \/ (o_exists p = true /\ o_is_dir p = true) \/
-  (o_exists p = false /\ o_parent_exists p = true /\ o_parent_is_dir p = true).
+(* whenever the output file is removed (step 11) or written (step 9), the file did NOT exist when the command looked: the handler's
+   unlink only ever removes what this invocation created *)
+Lemma accepted_means_absent : forall p, refused (handle_output_path p) = false -> target_existed p = false.
 Proof.
-  intros p f H. unfold archive_main in H.
-  destruct (refused (handle_output_path p)) eqn:R; [discriminate H|]. clear H.
-  unfold handle_output_path in R.
-  destruct (o_given p); cbn [negb] in R; [|left; reflexivity]. right.
-  destruct (o_exists p).
-  - destruct (o_is_dir p); [left; split; reflexivity|discriminate R].
-  - destruct (o_parent_exists p), (o_parent_is_dir p); cbn in R; try discriminate R. right. repeat split.
+  intros p R. unfold handle_output_path in R. unfold target_existed.
+  destruct (o_given p); cbn [negb] in *.
+  - destruct (o_exists p); [|reflexivity].
+    destruct (o_is_dir p); [|discriminate R]. destruct (o_gen_exists p); [discriminate R|reflexivity].
+  - destruct (o_gen_exists p); [discriminate R|reflexivity].
+Qed.
+
+Lemma unlink_only_what_was_absent : forall p f,
+  existsb removes_output (archive_main p f) = true -> target_existed p = false.
+Proof.
+  intros p f H. apply accepted_means_absent. unfold archive_main in H.
+  destruct (refused (handle_output_path p)); [discriminate H|reflexivity].
+Qed.
+
+Lemma write_only_what_was_absent : forall p f,
+  existsb writes_output (archive_main p f) = true -> target_existed p = false.
+Proof.
+  intros p f H. apply accepted_means_absent. unfold archive_main in H.
+  destruct (refused (handle_output_path p)); [discriminate H|reflexivity].
+Qed.
+
+(* ... and conversely whatever existed is refused *)
+Lemma existing_target_is_refused : forall p f, target_existed p = true -> archive_main p f = [1].
+Proof.
+  intros p f E. unfold archive_main.
+  destruct (refused (handle_output_path p)) eqn:R; [reflexivity|]. rewrite (accepted_means_absent p R) in E. discriminate E.
 Qed.
 
 (* an existing regular file named by -o is never written and never removed *)
